@@ -48,6 +48,8 @@ type NodeSpec struct {
 	// ProvisionalOrd: Order() answers this value until the node's first initialization callback, Ord afterwards
 	// (a participant that learns its position while it is initialised)
 	ProvisionalOrd *int `json:"provisional_ord,omitempty"`
+	// ZeroValueErrors: this node reports its injected faults with a field-less value-typed error
+	ZeroValueErrors bool `json:"zero_value_errors,omitempty"`
 }
 
 func (n *NodeSpec) DisplayName() string {
@@ -162,6 +164,7 @@ func Build(sc *Scenario, opt Options) *Run {
 		n := Palette[ns.Type].New()
 		k := n.Core()
 		k.Idx, k.Name, k.Qual, k.KindV, k.Ord, k.Log, k.Hook = i, ns.Name, ns.Qual, ns.Kind, ns.Ord, r.Log, opt.Hook
+		k.ZeroErr = ns.ZeroValueErrors
 		if ns.ProvisionalOrd != nil {
 			k.Ord = *ns.ProvisionalOrd
 			final, outer := ns.Ord, k.Hook
